@@ -20,10 +20,19 @@ package main
 //     the conditions of the error returns that follow it in processServerHello;
 //   - resSessionIdLen / resSessionIdFromRand: `hs.hello.sessionId = make([]byte, N)` filled by
 //     io.ReadFull(c.config.rand(), …) in the server's doFullHandshake;
-//   - resServerPutCount: number of SessionCache.Put calls in createSessionState.
+//   - resServerPutCount: number of SessionCache.Put calls in createSessionState;
+//   - the server's view of its peer on the resumption path:
+//     resResumeCertGuards: the conditions that enclose the call of c.processCertsFromClient in
+//     doResumeHandshake (empty = unconditional), resResumeCertArg its argument, resResumeCertSource
+//     the expression the argument's certificate list is collected from, resResumeVerifyConnGuards
+//     the conditions enclosing the call of c.config.VerifyConnection there;
+//     resServerPeerWriters: the functions of handshake_server.go that assign c.peerCertificates;
+//     resSessionPeerExpr: what createSessionState records as peerCertificates, and
+//     resFullRecordsPeer: doFullHandshake sets hs.peerCertificates = c.peerCertificates.
 
 import (
 	"go/ast"
+	"sort"
 	"strings"
 )
 
@@ -309,4 +318,133 @@ func emitResumption(e *emitter, p *pkg) {
 		skeys, _ = putCalls(p, fd.Body)
 	}
 	e.nat("resServerPutCount", int64(len(skeys)), true)
+
+	// the server's peer identity on the resumption path
+	guardsOf := func(key string, match func(*ast.CallExpr) bool) (guards []string, arg string, found bool) {
+		var walk func(stmts []ast.Stmt, conds []string)
+		check := func(n ast.Node, conds []string) {
+			if n == nil {
+				return
+			}
+			ast.Inspect(n, func(x ast.Node) bool {
+				if _, isLit := x.(*ast.FuncLit); isLit {
+					return false
+				}
+				if ce, ok := x.(*ast.CallExpr); ok && match(ce) && !found {
+					found = true
+					guards = append([]string{}, conds...)
+					if len(ce.Args) == 1 {
+						arg = p.src(ce.Args[0])
+					}
+				}
+				return true
+			})
+		}
+		walk = func(stmts []ast.Stmt, conds []string) {
+			for _, st := range stmts {
+				switch s := st.(type) {
+				case *ast.IfStmt:
+					check(s.Init, conds)
+					check(s.Cond, conds)
+					c := p.src(s.Cond)
+					walk(s.Body.List, append(append([]string{}, conds...), c))
+					switch el := s.Else.(type) {
+					case *ast.BlockStmt:
+						walk(el.List, append(append([]string{}, conds...), "!("+c+")"))
+					case *ast.IfStmt:
+						walk([]ast.Stmt{el}, append(append([]string{}, conds...), "!("+c+")"))
+					}
+				case *ast.ForStmt:
+					walk(s.Body.List, append(append([]string{}, conds...), "for"))
+				case *ast.RangeStmt:
+					walk(s.Body.List, append(append([]string{}, conds...), "range "+p.src(s.X)))
+				case *ast.BlockStmt:
+					walk(s.List, conds)
+				case *ast.SwitchStmt:
+					walk(s.Body.List, append(append([]string{}, conds...), "switch"))
+				case *ast.CaseClause:
+					walk(s.Body, conds)
+				default:
+					check(st, conds)
+				}
+			}
+		}
+		walk(body(p, key), nil)
+		return
+	}
+	cg, carg, cfound := guardsOf("serverHandshakeState.doResumeHandshake", func(ce *ast.CallExpr) bool {
+		return p.src(ce.Fun) == "c.processCertsFromClient"
+	})
+	e.strList("resResumeCertGuards", cg)
+	e.str("resResumeCertArg", carg)
+	if !cfound {
+		miss("resResumeCertGuards")
+	}
+	// where the certificate list of that argument comes from: a top-level
+	// `for _, cert := range X { sessionCerts = append(sessionCerts, cert.Raw) }`
+	source := ""
+	for _, st := range body(p, "serverHandshakeState.doResumeHandshake") {
+		if rs, ok := st.(*ast.RangeStmt); ok && len(rs.Body.List) == 1 {
+			if as, ok := rs.Body.List[0].(*ast.AssignStmt); ok && len(as.Lhs) == 1 && len(as.Rhs) == 1 &&
+				p.src(as.Lhs[0]) == "sessionCerts" && p.src(as.Rhs[0]) == "append(sessionCerts, "+p.src(rs.Value)+".Raw)" {
+				source = p.src(rs.X)
+			}
+		}
+	}
+	e.str("resResumeCertSource", source)
+	vg, _, vfound := guardsOf("serverHandshakeState.doResumeHandshake", func(ce *ast.CallExpr) bool {
+		return p.src(ce.Fun) == "c.config.VerifyConnection"
+	})
+	e.strList("resResumeVerifyConnGuards", vg)
+	if !vfound {
+		miss("resResumeVerifyConnGuards")
+	}
+	// who assigns c.peerCertificates on the server side
+	var writers []string
+	for key, fd := range p.funcs {
+		if fd.Body == nil || p.fset.Position(fd.Pos()).Filename == "" || !strings.HasSuffix(p.fset.Position(fd.Pos()).Filename, "handshake_server.go") {
+			continue
+		}
+		w := false
+		ast.Inspect(fd.Body, func(n ast.Node) bool {
+			if as, ok := n.(*ast.AssignStmt); ok {
+				for _, l := range as.Lhs {
+					if s := p.src(l); s == "c.peerCertificates" || s == "hs.c.peerCertificates" {
+						w = true
+					}
+				}
+			}
+			return true
+		})
+		if w {
+			writers = append(writers, key)
+		}
+	}
+	sort.Strings(writers)
+	e.strList("resServerPeerWriters", writers)
+	// what the server's session records as the peer
+	peerExpr := ""
+	if fd := p.funcs["serverHandshakeState.createSessionState"]; fd != nil && fd.Body != nil {
+		ast.Inspect(fd.Body, func(n ast.Node) bool {
+			if kv, ok := n.(*ast.KeyValueExpr); ok && p.src(kv.Key) == "peerCertificates" {
+				peerExpr = p.src(kv.Value)
+			}
+			return true
+		})
+	}
+	e.str("resSessionPeerExpr", peerExpr)
+	if peerExpr == "" {
+		miss("resSessionPeerExpr")
+	}
+	records := false
+	for _, st := range body(p, "serverHandshakeState.doFullHandshake") {
+		ast.Inspect(st, func(n ast.Node) bool {
+			if as, ok := n.(*ast.AssignStmt); ok && len(as.Lhs) == 1 && len(as.Rhs) == 1 &&
+				p.src(as.Lhs[0]) == "hs.peerCertificates" && p.src(as.Rhs[0]) == "c.peerCertificates" {
+				records = true
+			}
+			return true
+		})
+	}
+	e.boolean("resFullRecordsPeer", records)
 }
